@@ -96,6 +96,9 @@ def check_function(ctx, f, key, scalar='long double', skip=()):
                 # a value computed in double and then widened: exact only if the double expression is exactly representable
                 v_ = const_value(n['e'])
                 inner_ = strip(n['e'], casts=True)
+                if inner_.get('k') == 'call' and not inner_.get('inrepo') and inner_.get('n') in ('accumulate', 'inner_product', 'reduce', 'transform_reduce'):
+                    q4.append('%s: %s accumulates in %s (the type of its initial value) and is then widened to %s: every partial sum is rounded to the narrower type' % (
+                        n['l'], inner_['n'], n['from'], scalar))
                 if inner_.get('k') == 'bin' and inner_['op'] in ('+', '-', '*', '/'):
                     if v_ is None:
                         q4.append('%s: `%s` is computed in %s and then widened to %s' % (n['l'], show(n['e'])[:40], n['from'], scalar))
@@ -165,7 +168,9 @@ def run(ctx, prog):
                 pass
             n += 1
             key = '%s|%s' % (q.replace('MASA::', '').replace('<long double>', ''), sig.replace('long double', 'S'))
-            check_function(ctx, f, key)
+            # a "not provided" stub of the base class reached through an arity guard: its -1.33 is a sentinel, not a formula operand
+            is_stub = f.get('rec') == cat.BASE % scalar and f.n.startswith('eval_')
+            check_function(ctx, f, key, skip=('C09.Q4',) if is_stub else ())
     ctx.floor('functions_reachable_from_evaluators<long double>', n, 270)
     # ---- Q7: range compression.  After forward substitution (helpers inlined) no evaluator takes the logarithm of a value that
     # was produced by exp(): where exp() under- or overflows the logarithm returns -inf/+inf although the composition is a
